@@ -162,6 +162,10 @@ def cases(shard, nshards, seed, tier):
         k += 1
         return (k - 1) % nshards == shard
 
+    # hostile shapes, always run first: blank chain id (PDB only), several models x several chains
+    for h in range(12):
+        if mine():
+            yield {"family": "hostile", "h": h, "path": "pdb-pdb" if h < 6 else ["cif-cif", "pdb-cif-pdb", "cif-pdb-cif"][h % 3]}
     n = 400 if tier == "quick" else 8000
     for i in range(n):
         if mine():
@@ -200,7 +204,12 @@ def run_case(case, rec):
     if fam == "splitter":
         _splitter(case, rec)
         return
-    if fam == "generated":
+    if fam == "hostile":
+        rng = random.Random(f"C09:hostile:{case['h']}")
+        path = case["path"]
+        rows = gentab.random_table(rng, nmodels=1 + case["h"] % 3, nchains=2 + case["h"] % 2, blank_chain=(path == "pdb-pdb"), null_occ=False)
+        ctx = {"hostile": case["h"], "path": path}
+    elif fam == "generated":
         rng = random.Random(f"{seed}:C09:{case['i']}")
         path = case["path"]
         rows = gentab.random_table(rng, blank_chain=(path == "pdb-pdb" and rng.random() < 0.15), null_occ=False)
